@@ -66,6 +66,20 @@ def struct_program(rng):
     """a random program of the stage-2/3 fragment: (C source, prefix tokens for the Lean port)"""
     names = ["a", "b", "c", "d"]
     use_regs = rng.random() < 0.6
+    # stage 4: elements of the arrays t[8], u[4]. Two kinds of programs: `const` = literal subscripts only
+    # (X and Y are free); `indexed` = subscripts X / Y as well — then X and Y are only read, and the runs start
+    # with X, Y in 0..3, so that every subscript stays inside its array (the model has no zero-page wrap-around)
+    arrays = rng.choice([None, "const", "indexed", "indexed"])
+    absolute = arrays is not None and rng.random() < 0.4
+    regs_assignable = use_regs and arrays != "indexed"
+
+    def element():
+        t = rng.choice(["t", "u"])
+        if arrays == "indexed" and rng.random() < 0.7:
+            r_ = rng.choice("XY")
+            return "e%s@%s" % (t, r_), "%s[%s]" % (t, r_)
+        n = rng.randrange(4)
+        return "e%s@%d" % (t, n), "%s[%d]" % (t, n)
 
     def atom(allow_const=True, nonzero=False, allow_reg=True):
         if allow_const and rng.random() < 0.35:
@@ -74,13 +88,18 @@ def struct_program(rng):
         if use_regs and allow_reg and rng.random() < 0.3:
             r_ = rng.choice("XY")
             return "r" + r_, r_, False, None
+        if arrays and rng.random() < 0.35:
+            t, s_ = element()
+            return t, s_, False, None
         v = rng.choice(names)
         return "v" + v, v, False, None
 
     def lvalue():
-        if use_regs and rng.random() < 0.3:
+        if regs_assignable and rng.random() < 0.3:
             r_ = rng.choice("XY")
             return "r" + r_, r_
+        if arrays and rng.random() < 0.3:
+            return element()
         v = rng.choice(names)
         return "v" + v, v
 
@@ -124,7 +143,9 @@ def struct_program(rng):
         o = rng.choice(COPS)
         ordered = o[0] not in ("eq", "ne")
         t1, s1, c1, n1 = atom(nonzero=ordered)
-        t2, s2, c2, n2 = atom(allow_const=not c1, nonzero=ordered, allow_reg=not t1.startswith("r"))
+        # not two registers; and not `t[X] == X` (an element subscripted by a register against a register on the
+        # right: known finding compare-indexed-with-index-register, outside the fragment)
+        t2, s2, c2, n2 = atom(allow_const=not c1, nonzero=ordered, allow_reg=not (t1.startswith("r") or t1.endswith("@X") or t1.endswith("@Y")))
         return ["cmp:%s:%s:%s" % (o[0], t1, t2)], "%s %s %s" % (s1, o[1], s2)
 
     def stmt(depth):
@@ -189,8 +210,12 @@ def struct_program(rng):
     for _ in range(rng.randint(1, 8)):
         t, s_ = stmt(0)
         toks += t; lines.append(s_)
-    src = "unsigned char a, b, c, d;\nvoid main() {\n  " + "\n  ".join(lines) + "\n}\n"
-    return src, toks
+    q = "ramchip " if absolute else ""
+    decl = "unsigned char a, b, c, d;\n" + ("%sunsigned char t[8];\n%sunsigned char u[4];\n" % (q, q) if arrays else "")
+    src = decl + "void main() {\n  " + "\n  ".join(lines) + "\n}\n"
+    if absolute:
+        toks = ["abs=t,u"] + toks
+    return src, toks, arrays
 
 
 def run(chk):
@@ -214,9 +239,12 @@ def run(chk):
             chk.sample({"fragment_program": src[:300]})
     # ---- tie: the stage-2 port (structured control flow, flag belief), instructions and labels text-exact ----
     for i in range(chk.scale(400, 6000)):
-        src, toks = struct_program(rng)
+        src, toks, arrays = struct_program(rng)
         r = h.compile(src, 0)
         ma = m.req("genstruct " + " ".join(toks))
+        if arrays:
+            chk.count("struct_arrays_" + arrays)
+        ptoks = toks[1:] if toks and toks[0].startswith("abs=") else toks
         chk.case(key=src, nontrivial=any(t in ("if", "ife", "wh", "do", "for") for t in toks))
         for t in toks:
             if t in ("and", "or", "not", "if", "ife", "wh", "do", "for"):
@@ -241,21 +269,41 @@ def run(chk):
                 if not okl:
                     chk.count("struct_unloadable"); continue
                 for _ in range(3):
-                    vals = {n: rng.choice([0, 1, 2, 3, 5, 127, 128, 254, 255, rng.randrange(256)]) for n in "abcdXY"}
-                    exp = m.req("semstruct 3000 / %s / %s" % (" ".join("%s=%d" % kv for kv in sorted(vals.items())), " ".join(toks)))
+                    pick = lambda: rng.choice([0, 1, 2, 3, 5, 127, 128, 254, 255, rng.randrange(256)])
+                    vals = {n: pick() for n in "abcdXY"}
+                    objs = list("abcd")
+                    if arrays:
+                        vals["t"] = [pick() for _ in range(8)]; vals["u"] = [pick() for _ in range(4)]
+                        objs += ["t", "u"]
+                    if arrays == "indexed":
+                        vals["X"] = rng.randrange(4); vals["Y"] = rng.randrange(4)
+                    show = lambda v: ",".join(str(x) for x in v) if isinstance(v, list) else str(v)
+                    exp = m.req("semstruct 3000 / %s / %s" % (" ".join("%s=%s" % (k, show(v)) for k, v in sorted(vals.items())), " ".join(ptoks)))
                     if not exp.startswith("ok "):
                         chk.count("struct_sem_" + exp.split(" ")[0]); continue
-                    want = {t.split("=")[0]: int(t.split("=")[1]) for t in exp[3:].split(" ")}
+                    want = {}
+                    for t in exp[3:].split(" "):
+                        k, v = t.split("=")
+                        want[k] = [int(x) for x in v.split(",")] if k in ("t", "u") else int(v)
                     mem = dict(init)
                     for n, v in vals.items():
                         if n in regions:
-                            mem[regions[n][0]] = v
+                            for j, b in enumerate(v if isinstance(v, list) else [v]):
+                                mem[regions[n][0] + j] = b
                     res = prog.run(m, "c01s", mem=mem, a=rng.randrange(256), x=vals["X"], y=vals["Y"], fuel=400000,
-                                   watch=[(regions[n][0], 1) for n in "abcd"])
+                                   watch=[(regions[n][0], regions[n][1]) for n in objs])
                     if res["stop"] == "fuel":
                         chk.count("struct_run_out_of_steps"); continue      # a long run, not a wrong one: not judged
                     chk.count("struct_executions")
-                    got = dict({n: res["mem"][k] for k, n in enumerate("abcd")}, X=res["X"], Y=res["Y"]) if res["stop"] == "done" else {"stop": res["stop"]}
+                    if res["stop"] == "done":
+                        got = {"X": res["X"], "Y": res["Y"]}
+                        off = 0
+                        for n in objs:
+                            ln = regions[n][1]
+                            cells = list(res["mem"][off:off + ln]); off += ln
+                            got[n] = cells if n in ("t", "u") else cells[0]
+                    else:
+                        got = {"stop": res["stop"]}
                     if got != want:
                         chk.fail("c01-struct-wrong-value", "compiled code (-O%d) of a stage-2 program ends with %s, the source prescribes %s" % (level, got, want),
                                  {"source": src, "level": level, "initial": vals, "got": got, "expect": want})
